@@ -96,11 +96,47 @@ def restore_list():
     return [b for _, b in saved]
 
 
+def frame_base():
+    """which register `prepare_call` takes the frame base from, and how $sp/$ssp/$fp are derived from it"""
+    src = strip_comments(read("fuel-vm/src/interpreter/flow.rs"))
+    i = src.find("fn prepare_call(mut self)")
+    if i < 0:
+        raise TranslateError("PrepareCallCtx::prepare_call not found")
+    j = src.index("{", i)
+    depth, k = 0, j
+    while True:
+        if src[k] == "{":
+            depth += 1
+        elif src[k] == "}":
+            depth -= 1
+            if depth == 0:
+                break
+        k += 1
+    body = re.sub(r"\s+", " ", src[j:k])
+    m = need(re.search(r"let old_sp = \*self\.registers\.system_registers\.(\w+);", body), "prepare_call: `let old_sp = *…system_registers.<reg>`")
+    base = m.group(1)
+    for pat, what in (
+        (r"let new_sp = old_sp\.saturating_add\(total_size_in_stack as Word\);", "new_sp = old_sp.saturating_add(total)"),
+        (r"self\.memory\.grow_stack\(new_sp\)\?;", "grow_stack(new_sp)"),
+        (r"\*self\.registers\.system_registers\.sp = new_sp; \*self\.registers\.system_registers\.ssp = new_sp;", "$sp = $ssp = new_sp"),
+        (r"set_frame_pointer\( self\.context, self\.registers\.system_registers\.fp\.as_mut\(\), old_sp, \);", "set_frame_pointer(.., old_sp)"),
+        (r"self\.memory\.write_noownerchecks\( \*self\.registers\.system_registers\.fp, total_size_in_stack, \)\?;", "frame written at $fp"),
+        (r"let code_start = \(\*self\.registers\.system_registers\.fp\) \+ CallFrame::serialized_size\(\) as Word;", "code_start = $fp + frame size"),
+    ):
+        need(re.search(pat, body), "prepare_call: " + what)
+    if len(re.findall(r"\bold_sp\b", body)) != 3:
+        raise TranslateError("prepare_call: `old_sp` is used in an unexpected number of places")
+    return base.upper()
+
+
 def main():
     r = regs()
     c = consts()
     off = frame_layout(c)
     keep = restore_list()
+    base = frame_base()
+    if base not in r:
+        raise TranslateError(f"prepare_call takes the frame base from an unknown register {base}")
     L = ["/- GENERATED by tools/gen/vm_consts.py from fuel-asm/src/lib.rs, fuel-vm/src/{consts,call}.rs, fuel-vm/src/interpreter/flow.rs — do not edit -/",
          "namespace FuelVerif.Gen", ""]
     for k, v in r.items():
@@ -120,6 +156,10 @@ def main():
     L.append("")
     L.append("/-- registers `return_from_context` keeps from the callee (saved before, written back after `copy_from_slice`) -/")
     L.append("def retKeptRegs : List Nat := [%s]" % ", ".join(str(r[k]) for k in keep))
+    L.append("")
+    L.append("/-- the register `prepare_call` reads the base of the new call frame from (`let old_sp = *…system_registers.<reg>`);")
+    L.append("the frame and the code go to `[base, base + frame + code)`, `$fp := base`, `$ssp = $sp := base + frame + code` -/")
+    L.append("def callFrameBaseReg : Nat := %d" % r[base])
     L += ["", "end FuelVerif.Gen"]
     changed = write_if_changed("VmConsts.lean", "\n".join(L) + "\n")
     print("vm_consts: frame size %d, kept registers %s%s" % (off["serialized_size"], keep, " (changed)" if changed else ""))
